@@ -19,6 +19,8 @@ package stream
 import (
 	"sync/atomic"
 	"time"
+
+	"github.com/rulego/streamsql/utils/verifhook"
 )
 
 // safeGetDataChan safely gets dataChan reference
@@ -35,6 +37,7 @@ func (s *Stream) safeSendToDataChan(data map[string]any) bool {
 	if atomic.LoadInt32(&s.stopped) == 1 {
 		return false
 	}
+	verifhook.Point("send.before_rlock")
 	s.dataChanMux.RLock()
 	defer s.dataChanMux.RUnlock()
 	if s.dataChan == nil {
@@ -116,6 +119,7 @@ func (s *Stream) expandDataChannel() {
 
 	// Create new larger channel
 	newChan := make(chan map[string]any, newCap)
+	verifhook.Point("expand.before_lock")
 
 	// Safely migrate data using write lock
 	s.dataChanMux.Lock()
@@ -129,6 +133,7 @@ func (s *Stream) expandDataChannel() {
 	for {
 		select {
 		case data := <-oldChan:
+			verifhook.Point("expand.migrate_item")
 			select {
 			case newChan <- data:
 				migratedCount++
@@ -146,6 +151,7 @@ func (s *Stream) expandDataChannel() {
 	}
 
 migration_done:
+	verifhook.Observe("expand.swap", oldCap, newCap, migratedCount)
 	// Atomically update channel reference
 	s.dataChan = newChan
 	s.dataChanMux.Unlock()
